@@ -572,29 +572,63 @@ pub fn read_json<T: DeserializeOwned>(bytes: &[u8], plan: &JPlan, stats: &mut (u
     }
 }
 
-fn write_json<T: Serialize>(v: &T, plan: &JPlan) -> (Result<(), String>, Vec<u8>, u32, Option<u32>, u32, u32) {
+/// What the write side of the byte lane reports.
+pub struct JWrite {
+    pub result: Result<(), String>,
+    pub disk: Vec<u8>,
+    pub calls: u32,
+    pub err_fired: Option<u32>,
+    pub eintr: u32,
+    pub short: u32,
+    /// the stored record as a tree (a fault-free event-level write of the same value)
+    pub tree: Option<Node>,
+}
+
+/// Generic part of the byte-lane write: build the value, serde_json it onto the faulty disk, and
+/// take its tree.
+pub fn write_json_gen<T: Subject>(gen: &[u64], plan: &JPlan) -> JWrite {
     let mut w = FaultyWriter::new(plan);
+    let mut tree = None;
     let r = catch_unwind(AssertUnwindSafe(|| {
+        let v = T::build(&mut Cur::new(gen));
+        let mut st = Store::new(Medium::DEFAULT, &[]);
+        if v.serialize(&mut st).is_ok() {
+            tree = st.root.take();
+        }
         if plan.pretty {
-            serde_json::to_writer_pretty(&mut w, v).map_err(|e| e.to_string())
+            serde_json::to_writer_pretty(&mut w, &v).map_err(|e| e.to_string())
         } else {
-            serde_json::to_writer(&mut w, v).map_err(|e| e.to_string())
+            serde_json::to_writer(&mut w, &v).map_err(|e| e.to_string())
         }
     }));
     let r = match r {
         Ok(x) => x,
         Err(p) => Err(format!("PANIC: {}", panic_msg(p))),
     };
-    (r, std::mem::take(&mut w.disk), w.calls, w.err_fired, w.eintr_fired, w.short_fired)
+    JWrite { result: r, disk: std::mem::take(&mut w.disk), calls: w.calls, err_fired: w.err_fired, eintr: w.eintr_fired, short: w.short_fired, tree }
 }
 
-/// Execute one byte-level plan for type `T`.
-pub fn run_json<T: Subject>(plan: &JPlan, opts: RunOpts) -> Outcome {
+/// Generic part of the byte-lane read: deserialize (plainly or in place) and turn the value into leaves.
+pub fn read_json_leaves<T: Subject>(bytes: &[u8], plan: &JPlan, stats: &mut (u32, bool, u32, u32)) -> Result<Vec<u64>, String> {
+    let r: Result<T, String> = if plan.in_place && !matches!(plan.reader, JReader::Value | JReader::Flatten | JReader::Untagged) {
+        read_json_in_place(bytes, plan, stats)
+    } else {
+        read_json(bytes, plan, stats)
+    };
+    r.map(|v| {
+        let mut g = Vec::new();
+        v.read(&mut g);
+        g
+    })
+}
+
+/// Execute one byte-level plan for the type behind `ops`.
+pub fn run_json(ops: &dyn Ops, plan: &JPlan, opts: RunOpts) -> Outcome {
     // serde's own Content buffer (behind flatten / untagged) cannot carry 128-bit integers for
     // any type, cgmath's or not: such values go through the plain slice reader instead
     let wide = {
         let mut k = Vec::new();
-        T::shape().leaf_kinds(&mut k);
+        ops.shape().leaf_kinds(&mut k);
         k.iter().any(|x| matches!(x, Kind::I128 | Kind::U128))
     };
     let adjusted;
@@ -606,7 +640,7 @@ pub fn run_json<T: Subject>(plan: &JPlan, opts: RunOpts) -> Outcome {
     };
     let mut out = Outcome::default();
     let mut log = Fnv::default();
-    let shape = T::shape();
+    let shape = ops.shape();
     let is_dec = is_decomposed_name(&plan.ty);
 
     macro_rules! eval {
@@ -622,21 +656,14 @@ pub fn run_json<T: Subject>(plan: &JPlan, opts: RunOpts) -> Outcome {
         }};
     }
 
-    let built = catch_unwind(AssertUnwindSafe(|| {
-        let mut c = Cur::new(&plan.gen);
-        let v = T::build(&mut c);
-        let mut m = Vec::new();
-        v.read(&mut m);
-        (v, m)
-    }));
-    let (v, m) = match built {
+    let m = match ops.model(&plan.gen) {
         Ok(x) => x,
         Err(p) => {
-            out.harness_error = Some(format!("building the value panicked: {}", panic_msg(p)));
+            out.harness_error = Some(format!("building the value panicked: {}", p));
             return out;
         }
     };
-    if T::faithful() && m != plan.gen {
+    if ops.faithful() && m != plan.gen {
         out.harness_error = Some("model mismatch".to_string());
         return out;
     }
@@ -659,7 +686,7 @@ pub fn run_json<T: Subject>(plan: &JPlan, opts: RunOpts) -> Outcome {
     }
 
     // ---- write through serde_json onto the faulty disk -------------------------------------
-    let (wres, disk, wcalls, werr, weintr, wshort) = write_json(&v, plan);
+    let JWrite { result: wres, disk, calls: wcalls, err_fired: werr, eintr: weintr, short: wshort, tree: written_tree } = ops.write_json(&plan.gen, plan);
     out.wsteps = wcalls;
     out.write_ok = Some(wres.is_ok());
     log.bytes(&disk);
@@ -693,9 +720,8 @@ pub fn run_json<T: Subject>(plan: &JPlan, opts: RunOpts) -> Outcome {
     }
 
     // the stored record as a tree (names as cgmath writes them), via a fault-free event-level write
-    let mut st = Store::new(Medium::DEFAULT, &[]);
-    let tree_ok = v.serialize(&mut st).is_ok();
-    let mut tree = st.root.take();
+    let tree_ok = written_tree.is_some();
+    let mut tree = written_tree;
     let mut leaf_paths: Vec<SmallPath> = Vec::new();
     if let (true, Some(t)) = (tree_ok, tree.as_ref()) {
         let mut at = 0;
@@ -845,12 +871,7 @@ pub fn run_json<T: Subject>(plan: &JPlan, opts: RunOpts) -> Outcome {
             }
         }
         let mut rstats = (0u32, false, 0u32, 0u32);
-        let res: Result<T, String> =
-            if plan.in_place && !matches!(plan.reader, JReader::Value | JReader::Flatten | JReader::Untagged) {
-                read_json_in_place(&bytes, plan, &mut rstats)
-            } else {
-                read_json(&bytes, plan, &mut rstats)
-            };
+        let res: Result<Vec<u64>, String> = ops.read_json(&bytes, plan, &mut rstats);
         out.rsteps = rstats.0.max(1);
         out.read_ok = Some(res.is_ok());
         out.jstats.r_eintr += rstats.2;
@@ -876,7 +897,7 @@ pub fn run_json<T: Subject>(plan: &JPlan, opts: RunOpts) -> Outcome {
         if flipped {
             // A8: silent corruption. The only thing the property lets us demand is that the
             // hand-written Decomposed impl judges the damaged text like the derive mirror does.
-            if let Some(mir) = T::mirror_read(&bytes, plan) {
+            if let Some(mir) = ops.mirror_read(&bytes, plan) {
                 let dup_or_array = match serde_json::from_slice::<TopKeys>(&bytes) {
                     Ok(TopKeys(keys)) => {
                         let mut k = keys.clone();
@@ -888,11 +909,7 @@ pub fn run_json<T: Subject>(plan: &JPlan, opts: RunOpts) -> Outcome {
                 } || bytes.iter().find(|c| !c.is_ascii_whitespace()) == Some(&b'[');
                 if !dup_or_array && cut.is_none() {
                     eval!("A8");
-                    let mine = res.as_ref().map(|v2| {
-                        let mut g = Vec::new();
-                        v2.read(&mut g);
-                        g
-                    });
+                    let mine = res.as_ref().map(|g| g.clone());
                     match (&mine, &mir) {
                         (Ok(a), Ok(b)) if a == b => {}
                         (Err(_), Err(_)) => {}
@@ -944,7 +961,7 @@ pub fn run_json<T: Subject>(plan: &JPlan, opts: RunOpts) -> Outcome {
             if err_fired && !root_is_record {
                 out.nontrivial = true;
             } else {
-                let any = judge_read(&mut out, &facts, &res, &expected, &leaf_paths);
+                let any = judge_read(&mut out, &facts, &shape, &res, &expected, &leaf_paths);
                 if any || plan.escape_keys {
                     out.nontrivial = true;
                 }
@@ -954,12 +971,10 @@ pub fn run_json<T: Subject>(plan: &JPlan, opts: RunOpts) -> Outcome {
         if opts.trace {
             let d = out.detail.get_or_insert_with(RunDetail::default);
             d.read_result = match &res {
-                Ok(v2) => {
-                    let mut got = Vec::new();
-                    v2.read(&mut got);
+                Ok(got) => {
                     let mut s = String::new();
                     let mut at = 0;
-                    shape.render(&got, &mut at, &mut s);
+                    shape.render(got, &mut at, &mut s);
                     format!("Ok({})", s)
                 }
                 Err(e) => format!("Err({})", e),
@@ -1007,16 +1022,14 @@ pub fn run_json<T: Subject>(plan: &JPlan, opts: RunOpts) -> Outcome {
     if plan.retry && (wfaulted || out.nontrivial) {
         eval!("AR");
         let clean = JPlan::base(&plan.ty, plan.gen.clone());
-        let (w2, disk2, c2, _, _, _) = write_json(&v, &clean);
+        let JWrite { result: w2, disk: disk2, calls: c2, .. } = ops.write_json(&plan.gen, &clean);
         out.wsteps += c2;
         match w2 {
             Err(e) => fail!("AR", "fault-free retry after a faulted attempt failed to write: {}", e),
             Ok(()) => {
                 let mut rs = (0, false, 0, 0);
-                match read_json::<T>(&disk2, &clean, &mut rs) {
-                    Ok(v2) => {
-                        let mut g = Vec::new();
-                        v2.read(&mut g);
+                match ops.read_json(&disk2, &clean, &mut rs) {
+                    Ok(g) => {
                         if g != echo {
                             fail!("AR", "fault-free retry after a faulted attempt read back {:?}, expected {:?}", g, echo);
                         }
